@@ -139,6 +139,17 @@ def run(tier, seed):
         got = set(t.final_measurement.metrics.keys())
         if not set(names) <= got:
           viol('%s: a completed trial lacks a metric of the problem statement' % name.split('(')[0], {'experimenter': name, 'metrics': sorted(got), 'expected': names})
+    # batches of any size: a trial evaluated in a batch gets what the same point gets when evaluated alone
+    if 'noisy' not in name and 'infeasible' not in name and len(pts) > 1:
+      try:
+        for t, p in zip(trials, pts):
+          a, c = mvals(t), mvals(evalv(ex, dict(p)))
+          if (a is None) != (c is None) or (a is not None and any(m not in c or not (a[m] == c[m] or (a[m] != a[m] and c[m] != c[m])) for m in a)):
+            viol('%s: a trial evaluated in a batch of %d gets other metric values than the same point evaluated alone' % (name.split('(')[0], len(pts)),
+                 {'experimenter': name, 'point': p, 'in_batch': a, 'alone': c, 'batch': pts})
+            break
+      except Exception as e:  # pylint: disable=broad-except
+        viol('%s.evaluate raised %s on a single point of a batch it had evaluated' % (name.split('(')[0], type(e).__name__), {'experimenter': name, 'error': str(e)[:300]})
     # a suggestion is a mapping from names to values: the order in which its parameters were inserted must not matter
     if 'noisy' not in name and pts and len(pts[0]) > 1:
       p = pts[0]
